@@ -190,7 +190,7 @@ CONFIG = {
         "assumptions": ["'the same items' are the parsed items (syn's NestedMeta values): the model starts after syn's parser; see known finding F16 for the one place where syn's parse of an item depends on its position", "field converters are parameters"],
     },
     "C16": {
-        "lean_modules": ["Darling.Props.C16"],
+        "lean_modules": ["Darling.Props.C16", "Darling.Props.C16Spec"],
         "streams": [
             {"name": "c16", "n": {"quick": 6000, "thorough": 120000}, "trivial": lambda case, ans: not ans.startswith("(ok")},
             {"name": "c16m", "n": {"quick": 4000, "thorough": 80000}, "trivial": lambda case, ans: not ans.startswith("(err")},
